@@ -1,5 +1,5 @@
 (* C05 property theorems.  Only statements closed by [exact]; each followed by Print Assumptions. *)
-From Miller Require Import Base.Bytes Base.Record C05.Model C05.Proofs C05.Harness.
+From Miller Require Import Base.Bytes Base.Record C05.Model C05.Proofs C05.CtxModel C05.CtxProofs C05.Harness.
 Open Scope Z_scope.
 
 (* `mlr A then B` = B applied to the output of A, for ALL verbs of the stream shape (any state type, any step and
@@ -99,6 +99,55 @@ Theorem C05_chain_differs_from_pipe_for_NR_refuted :
   <> map fst (crun (cchain (lift v_tac) cput_nr) xs c).
 Proof. exact chain_differs_from_pipe_for_nr. Qed.
 Print Assumptions C05_chain_differs_from_pipe_for_NR_refuted.
+
+(* ---- contexts travel with the records through the chain; the end block sees the reader's final context (round 2) ---- *)
+(* NR/FNR/FILENAME/FILENUM evaluated by a put (unconditionally or under any guard: if, pattern-action, ternary) placed after ANY
+   verb are those of the context each record carries out of that verb ... *)
+Theorem C05_context_variables_follow_the_record :
+  forall (v : cverb) (guard : record -> bool) (xs : list crec) (c : context),
+  crun (cchain v (cput_ctx guard)) xs c = map (annot guard) (crun v xs c)
+  /\ forall p, crun (cchain v (cfilter_ctx p)) xs c = filter (fun x => p (snd x)) (crun v xs c).
+Proof. exact (fun v guard xs c => conj (context_travels v guard xs c) (fun p => context_filter_after v p xs c)). Qed.
+Print Assumptions C05_context_variables_follow_the_record.
+
+(* ... and after record-selecting / reordering verbs (tac, head, filter on fields, nothing, and any chain of them) every surviving
+   record is labelled with the context of ITS OWN source, i.e. with the closed form of C05_multi_file_contexts *)
+Theorem C05_selectors_keep_each_records_own_context :
+  selector c_tac /\ (forall n, selector (c_head n)) /\ (forall p, selector (c_filter p)) /\ selector c_nothing
+  /\ (forall a b, selector a -> selector b -> selector (cchain a b))
+  /\ forall v guard xs c y, selector v -> In y (crun (cchain v (cput_ctx guard)) xs c) -> exists x, In x xs /\ y = annot guard x.
+Proof. exact (conj selector_tac (conj selector_head (conj selector_filter (conj selector_nothing (conj selector_chain selector_annotates_own_source))))). Qed.
+Print Assumptions C05_selectors_keep_each_records_own_context.
+
+(* the end block after ANY verbs sees exactly the context carried by the end-of-stream marker ... *)
+Theorem C05_end_block_sees_marker_context_through_any_chain :
+  forall (v : cverb) (xs : list crec) (c : context), crun (cchain v cput_end) xs c = [(end_record c, c)].
+Proof. exact end_block_context. Qed.
+Print Assumptions C05_end_block_sees_marker_context_through_any_chain.
+
+(* ... which is the reader's final context: FILENAME/FILENUM of the LAST file (also when it is empty), FNR = its record count,
+   NR = all records *)
+Theorem C05_end_context_closed_form :
+  (forall (m : ropts) (fs : list file) (recs : list (list record)),
+     Forall2 (fun f rs => parse_file m (snd f) = Some rs) fs recs ->
+     rctx (fst (read_files m fs)) = end_ctx ctx0 (combine (map fst fs) recs))
+  /\ forall c0 fs name rs,
+     end_ctx c0 (fs ++ [(name, rs)]) =
+     Ctx name (filenum c0 + Z.of_nat (List.length fs) + 1)
+         (nr c0 + Z.of_nat (List.length (List.concat (map snd fs))) + Z.of_nat (List.length rs)) (Z.of_nat (List.length rs)).
+Proof. exact (conj end_context_closed_form end_ctx_last). Qed.
+Print Assumptions C05_end_context_closed_form.
+
+Example C05_context_nonvacuous :
+  let xs := [([(B "id", B "r1")], Ctx (B "f1") 1 1 1); ([(B "id", B "r2")], Ctx (B "f2") 2 2 1); ([(B "id", B "r3")], Ctx (B "f2") 2 3 2)] in
+  let c := Ctx (B "empty") 3 3 0 in
+  map fst (crun (cchain c_tac (cput_ctx (fun _ => true))) xs c)
+  = [[(B "id", B "r3"); (B "_nr", B "3"); (B "_fnr", B "2"); (B "_fn", B "f2"); (B "_fnum", B "2")];
+     [(B "id", B "r2"); (B "_nr", B "2"); (B "_fnr", B "1"); (B "_fn", B "f2"); (B "_fnum", B "2")];
+     [(B "id", B "r1"); (B "_nr", B "1"); (B "_fnr", B "1"); (B "_fn", B "f1"); (B "_fnum", B "1")]]
+  /\ map fst (crun (cchain (c_head 1) cput_end) xs c) = [[(B "e", B "3:0:empty:3")]]
+  /\ end_ctx ctx0 [(B "f1", [[(B "id", B "r1")]]); (B "f2", [[(B "id", B "r2")]; [(B "id", B "r3")]]); (B "empty", [])] = c.
+Proof. vm_compute. repeat split; reflexivity. Qed.
 
 (* non-vacuity: a three-file CSV input with differing headers and an empty file meets the hypothesis; closed form evaluated *)
 Example C05_nonvacuous :
